@@ -116,7 +116,7 @@ MPT_STRUCT(parser_context)
 	MPT_STRUCT(parser_input) src;   /* character source */
 	MPT_STRUCT(parser_allow) name;  /* section/option name format */
 	
-	uint16_t  valid;  /* valid size of post data */
+	uint32_t  valid;  /* valid size of post data */
 	
 	uint8_t   prev;   /* previous operation */
 	uint8_t   curr;   /* current operation */
